@@ -25,4 +25,21 @@ def asmPrefixMatch (name : Str) : Option Str :=
   | '_' :: _ => if l.isEmpty ∨ d.isEmpty then none else some (l ++ d)
   | _ => none
 
+/-- a binary file opened for reading: its bytes and the position.  `seek` to a negative position raises OSError (`Err.other`). -/
+structure BinFile where
+  data : List Nat
+  pos : Nat := 0
+  deriving Repr, DecidableEq
+
+def BinFile.seek (f : BinFile) (p : Int) : R BinFile := if p < 0 then .error .other else .ok { f with pos := p.toNat }
+/-- `fh.seek(d, 1)`: relative to the current position -/
+def BinFile.seekRel (f : BinFile) (d : Int) : R BinFile := BinFile.seek f ((f.pos : Int) + d)
+/-- `fh.read(n)`: at most `n` bytes from the position (`n < 0`: to the end), the position moves behind them -/
+def BinFile.read (f : BinFile) (n : Int) : List Nat × BinFile :=
+  let out := if n < 0 then f.data.drop f.pos else (f.data.drop f.pos).take n.toNat
+  (out, { f with pos := f.pos + out.length })
+
+/-- `a, b, …  = xs` with `n` names: ValueError unless `xs` has exactly `n` items -/
+def unpackN {α : Type} (n : Nat) (xs : List α) : R (List α) := if xs.length = n then .ok xs else .error .value
+
 end AgpTpf.PyRt
